@@ -297,6 +297,38 @@ def simultaneous_failures_case(args):
         sc.close()
 
 
+def other_device_case(args):
+    """the declared output lies on another file system than the working directory (a results directory that is a symbolic link
+    to scratch storage): while the program is alive an observer polls the final path.  Either the run fails and nothing ever
+    appears there (rename across devices is refused: what the library does today), or the file appears complete: a shorter
+    file at the final path is a partial output"""
+    seed, i = args
+    import shutil, os as _os
+    rng = random.Random(seed * 86028301 + i)
+    other = t3.other_device_dir()
+    if other is None:
+        return {"spec": "", "bufsize": 0, "problems": [], "point": None, "rc": 0, "stderr": "", "yield": None, "ntasks": 0, "wall": 0, "kind": "other-device-skipped"}
+    size = rng.choice([120, 200, 300]) * 1000 * 1000
+    sp = t3.Spec(maxtasks=2, bufsize=128)
+    sp.proc(t3.RawProc("big", "head -c %d /dev/zero > {o:o}" % size, ins=[], outs=[("o", "results/big.bin")]))
+    sc = t3.Scratch()
+    try:
+        _os.symlink(other, _os.path.join(sc.work, "results"))
+        r = t3.watched_run(sc, sp, "results/big.bin", size)
+        problems = []
+        if r["smallest_seen"] is not None and r["smallest_seen"] < size:
+            problems.append(("partial-at-final-path", "the output results/big.bin (results -> a directory on another file system) was seen at its final path holding %d of %d bytes while the program was running" % (r["smallest_seen"], size)))
+        if r["rc"] == 0 and r["final_size"] != size:
+            problems.append(("wrong-size", "exit 0 but results/big.bin has %s of %d bytes" % (r["final_size"], size)))
+        if r["rc"] != 0 and r["final_size"] is not None:
+            problems.append(("output-of-failed-run", "the program exits %s, yet results/big.bin exists (%d bytes)" % (r["rc"], r["final_size"])))
+        return {"spec": sp.text(), "bufsize": sp.bufsize, "problems": problems, "point": None, "rc": r["rc"], "stderr": r["out"][-200:], "yield": None,
+                "ntasks": 1, "wall": 1.0, "kind": "other-device"}
+    finally:
+        sc.close()
+        shutil.rmtree(other, ignore_errors=True)
+
+
 def run(rep, tier, seed):
     proved = vlib.prove(rep, MODULE, THEOREMS)
     ok, msg = vlib.build_ocaml()
@@ -320,6 +352,7 @@ def run(rep, tier, seed):
     results += t3.run_many(stale_case, [(seed, i) for i in range(16 if tier == "quick" else 300)])
     results += [r for r in t3.run_many(write_fault_case, [(seed, i) for i in range(8 if tier == "quick" else 120)]) if r]
     results += t3.run_many(simultaneous_failures_case, [(seed, i) for i in range(4 if tier == "quick" else 30)])
+    results += t3.run_many(other_device_case, [(seed, i) for i in range(2 if tier == "quick" else 8)], workers=2)
     results += t3.run_many(two_instances_case, [(seed, i) for i in range(4 if tier == "quick" else 40)])
     results += t3.run_many(sigpipe_case, [(seed, i) for i in range(4 if tier == "quick" else 40)])
     t3.report_t3(rep, MODULE, proved, results, "T3 crash-point / failure / SIGKILL enumeration")
